@@ -83,7 +83,7 @@ CLAIMED = {
  "C06": dict(
     text="Proof: model of _packet_write/_packet_queue/loop_write over arbitrary send schedules (accept any k incl. 0, would-block, OSError, ValueError at any point) and arbitrary interleavings of enqueue and write operations, unbounded sizes: the bytes accepted by the transport ++ the unsent remainder = the concatenation of the queued packets in queue order (CONNECT first) - nothing lost, duplicated or reordered; nothing is offered before CONNECT is queued; a QoS 0 publish is reported (on_publish, published) exactly once and only when its last byte was accepted; unsent data implies want_write() and a requested write registration; the write loop terminates. The same statements over WebSockets for the de-framed payload of the raw bytes (generic over a transport specification, instantiated for the raw socket and for _send_impl), and every completed frame is well-formed (FIN, opcode 2, mask bit, 4-byte key, minimal length form). Plus, on the session model with the output queue, the queue is FIFO for arbitrary histories.",
     ref="4.6", technique="Coq proof: stream invariant over all send schedules and enqueue/write interleavings, generic in the transport; differential execution with exhaustive small send schedules on the real client and the real _WebsocketWrapper",
-    note="Trusted: Coq kernel, extraction+driver, harness (os.urandom proxied so the model gets the same mask keys; only _do_handshake overridden). Hypotheses: at most one CONNECT per connection; fewer than 2^63 bytes per WebSocket connection. Tie by correspondence only. The WebSocket writer model carries _data_pending but has no control-frame operation: PONG/CLOSE replies between partial data writes are judged on the implementation only by ws_control_oracle (exploration; defect F-C06c/d found there and repaired)."),
+    note="Trusted: Coq kernel, extraction+driver, harness (os.urandom proxied so the model gets the same mask keys; only _do_handshake overridden). Hypotheses: at most one CONNECT per connection; fewer than 2^63 bytes per WebSocket connection. Tie by correspondence only. Control frames (PONG/CLOSE replies written from inside recv()) are modelled in Link/WsControl.v together with _send_impl on the one send buffer: for every call sequence the accepted bytes ++ buffer are the frames created, in order, and the flushed stream parses back to exactly those frames, all masked (defect F-C06c/d, repaired); tied by correspondence on call sequences plus a scenario oracle on the implementation."),
  "C08": dict(
     text="Proof: timed model (integer virtual time; every comparison in the code is now - t >= K) of _check_keepalive/loop_misc/_send_pingreq/_handle_pingresp and the timestamp updates, for all K > 0, d >= 0 and all op lists serviced within d: while connected now - t_last_tx <= K + d (strictly less); an unanswered PINGREQ leads within K + d to a closed socket, exactly one on_disconnect(KEEPALIVE), a non-zero loop result and is_connected() false; every keepalive close is justified by an unanswered PINGREQ/CONNECT older than K (no close from silence, traffic or gaps alone); with answers arriving by K - d and no inbound backlog carried across a clock advance the client never closes on its own; K = 0: never pings, never times out. The two timeout tests are cut from the source on every run and bridged. Literal 'answered within K' clause refuted by a benign witness (tolerance <= d); open finding F-C08a (backlog) excluded explicitly.",
     ref="4.8", technique="Coq proof: timed invariants closed by lia over all op lists; timeout conditions translated from the source each run; differential execution under a virtual clock",
